@@ -74,6 +74,14 @@ def run(rep, tier, seed, b):
     smis += singles
     spans = span_cases()
     items = [(tabs[i % len(tabs)], x, True, False) for i, x in enumerate(smis)] + [(tabs[0], s[2], True, False) for s in spans]
+    # tables with capacities of 10 and more: hydrogen counts and bond sums with two digits must still give symbols the decoder reads
+    big = dict(tabs[0]); big.update({'?': 40, 'U': 14, 'Xe': 12, 'S': 16, 'C': 12})
+    for _ in range(300 if tier == 'quick' else 6000):
+        el = rng.choice(['U', 'Xe', 'S', 'C', 'W', 'Os', 'Pt'])
+        h = rng.choice([9, 10, 11, 12, 15, 20, 100])
+        c = rng.choice(['', '', '+', '-2', '+10'])
+        a = '[%s%sH%d%s]' % (rng.choice(['', '', '238']), el, h, c)
+        items.append((big, rng.choice(['%s', 'C%s', '%sC', 'C%sC', 'F%s(F)F', '%s.%s']).replace('%s', a), True, False))
     res = core.pmap('enc_side', 'work', items, extra={'roundtrip': True, 'reencode': True}, chunk=250)
     for k, (it, r) in enumerate(zip(items, res)):
         rep.evaluations += 1
@@ -86,7 +94,7 @@ def run(rep, tier, seed, b):
             rep.count('encoder rejects')
             continue
         sel = im['ok']
-        over = k >= len(smis) and spans[k - len(smis)][1] >= 4096
+        over = len(smis) <= k < len(smis) + len(spans) and spans[k - len(smis)][1] >= 4096
         toks = dec_side.tokens_of(sel)
         wf = ''.join(toks) == sel and sel != '' and not sel.startswith('.') and not sel.endswith('.') and '..' not in sel
         ok = d.one(['symok', core.T(it[0]), [S(t) for t in toks if t != '.']])
